@@ -1302,7 +1302,7 @@ SPECS = [
     RuleSpec("C16.R2", rule_r2, 2, "A7", "__len__ = rows; __iter__ yields one item per row in row order"),
     RuleSpec("C16.R3", rule_r3, 8, "A8", "first/last = min/max of offset (tail for holds); overrides keep guard and normalisation"),
     RuleSpec("C16.R4", rule_r4, 3, "A7", "sorted: key offset, ascending = not reverse, stable"),
-    RuleSpec("C16.R5", rule_r5, 1, "A7", "append: concat [self, val], fresh index, optional sort"),
+    RuleSpec("C16.R5", rule_r5, 1, "A7", "append: concat [self, val], fresh index, sorted iff sort on every exit"),
     RuleSpec("C16.R6", rule_r6, 14, "A7", "filter comparator truth tables for every flag combination"),
     RuleSpec("C16.R7", rule_r7, 28, "A2", "item constructor kwargs = declared fields"),
     RuleSpec("C16.R8", rule_r8, 37, "A2", "default / empty / from_dict frames = declared fields"),
@@ -1310,7 +1310,7 @@ SPECS = [
     RuleSpec("C16.R9", rule_r9, 2, "M0", "row -> item filter keeps exactly the declared fields"),
     RuleSpec("C16.R10", rule_r10, 3, "A7", "hold ends: head_offset = offset, tail_offset = offset + length"),
     RuleSpec("C16.R12", rule_r12, 9, "M0", "list operations re-defined in subclasses forward to the decided definition; `df` is a plain field"),
-    RuleSpec("C16.R13", rule_r13, 3, "A3", "a mutable declared default is copied for every cell it fills (_default, empty, from_dict)"),
+    RuleSpec("C16.R13", rule_r13, 3, "A3", "a mutable declared default is copied for every cell it fills (_default, empty, from_dict); repeated rows are renumbered"),
     RuleSpec("C16.R11", rule_r11, 12, "M0", "Property.py generators: each accessor reads/writes its own key (bound per iteration) of the right store"),
 ]
 
